@@ -1,4 +1,5 @@
 """C05 — every report is a pure function of its inputs (no dependence on map iteration order)."""
+import re
 from .. import spec
 from ..gen import G, Qty
 from ..common import run_apps, app, out_of, sig, base_files, summarize
@@ -120,7 +121,8 @@ def run(ctx):
             outs = set()
             for _ in range(6):
                 rc, out, err = core.run_real_binary(binary, c.argv(), c.files)
-                outs.add((rc, out, err))
+                # the message on stderr carries log.Fatal's time stamp, which is not part of the result
+                outs.add((rc, out, re.sub(rb'(?m)^\d{4}/\d\d/\d\d \d\d:\d\d:\d\d ', b'', err)))
             n += 1
             if len(outs) != 1:
                 ctx.problem('oracle', 'separate runs of the real binary differ for `%s`' % c.meta['kind'], c, {'n_distinct': len(outs)}, signature='nondeterministic:' + c.meta['kind'])
